@@ -19,11 +19,12 @@ import (
 
 // World = loaded program.
 type World struct {
-	prog  *ssa.Program
-	pkg   *ssa.Package
-	cfg   Config
-	tier  int
-	loadS float64
+	prog     *ssa.Program
+	pkg      *ssa.Package
+	cfg      Config
+	tier     int
+	loadS    float64
+	deadline time.Time // wall-clock end of the exploration of the current harness; also checked inside paths
 }
 
 type Violation struct {
@@ -223,6 +224,7 @@ func (w *World) runPath(solver *Solver, fn *ssa.Function, dec []int, wantModel b
 }
 
 func (w *World) explore(fn *ssa.Function, workers, maxPaths int, deadline time.Time, seed int64) *HarnessResult {
+	w.deadline = deadline
 	t0 := time.Now()
 	res := &HarnessResult{Harness: fn.Name(), Ended: map[string]int{}, DecisionKinds: map[string]int{}}
 	var mu sync.Mutex
@@ -386,7 +388,7 @@ func main() {
 	maxPaths := flag.Int("maxpaths", 200000, "")
 	maxPre := flag.Int("preempt", 2, "")
 	maxSteps := flag.Int("maxsteps", 2000000, "")
-	timeoutS := flag.Int("timeout", 600, "wall clock budget per harness (s)")
+	timeoutS := flag.Int("timeout", 600, "wall clock budget per harness (s); the whole invocation gets at most twice this")
 	solverMs := flag.Int("solver-ms", 10000, "")
 	tier := flag.Int("tier", 0, "0 quick, 1 thorough")
 	out := flag.String("out", "", "result JSON file")
@@ -474,7 +476,11 @@ func main() {
 			solver.Close()
 			continue
 		}
-		r := w.explore(fn, *workers, *maxPaths, time.Now().Add(time.Duration(*timeoutS)*time.Second), 0)
+		dl := time.Now().Add(time.Duration(*timeoutS) * time.Second)
+		if g := t0.Add(2 * time.Duration(*timeoutS) * time.Second); dl.After(g) {
+			dl = g
+		}
+		r := w.explore(fn, *workers, *maxPaths, dl, 0)
 		results = append(results, r)
 		fmt.Fprintf(os.Stderr, "%-40s paths=%d ended=%v viol=%d inconcl=%d queries=%d solver=%.1fs wall=%.1fs\n", h, r.Paths, r.Ended, len(r.Violations), len(r.Inconclusive), r.Queries, r.SolverS, r.WallS)
 	}
